@@ -42,17 +42,19 @@ def _parse_tuple(line):
     out, stack, i, n = None, [], 0, len(s)
     cur = None
     while i < n:
-        if s.startswith("<<", i):
+        if s.startswith("<<", i) or s[i] == "{":
+            step = 2 if s.startswith("<<", i) else 1
             new = []
             if cur is not None:
                 cur.append(new); stack.append(cur)
-            cur = new; i += 2
-        elif s.startswith(">>", i):
+            cur = new; i += step
+        elif s.startswith(">>", i) or s[i] == "}":
+            step = 2 if s.startswith(">>", i) else 1
             if stack:
                 cur = stack.pop()
             else:
                 out = cur
-            i += 2
+            i += step
         elif s[i] == '"':
             j = i + 1
             buf = []
